@@ -2258,17 +2258,8 @@ def _pack_layout(layout):
 
     # RegularArrays can change length
     elif isinstance(layout, ak.layout.RegularArray):
-        if not len(layout):
-            return layout
-
-        content = layout.content
-
-        # Truncate content to perfect multiple of the RegularArray size
-        if layout.size > 0:
-            r = len(content) % layout.size
-            content = content[: len(content) - r]
-        else:
-            content = content[:0]
+        # Truncate content to the part that the RegularArray uses
+        content = layout.content[: len(layout) * layout.size]
 
         return ak.layout.RegularArray(
             content,
